@@ -64,6 +64,8 @@ c.finish(
         "source and call objects are file-shaped: a stream is never a part of another object (PDF 7.3.8; true of everything the Reader returns); needed for copy_total only",
         "target object numbers stay below maxXRefSize (Writer.Alloc panics there by design)",
         "stream data (copy_stream_bytes): the ciphers are any enc/dec with dec (enc x) = x, the remaining filters any function of the inlined /Filter and /DecodeParms that does not depend on object numbers; the source stream's filter chain is one GetFilters accepts; a /Crypt filter other than /Identity in an encrypted source is the copier's documented 'not yet supported' error",
+        "target readability is judged by go-pdf's own Reader: a /Crypt /Identity stream copied from a V4/V5 source into an RC4 (V<4, PDF < 1.5) target keeps /Filter /Crypt with the body stored as it was in the source (exempt there too); go-pdf reads it back to the same bytes, so no C11 clause fails, although PDF < 1.5 has no Crypt filters and other readers may object",
+        "a dictionary-declared /Crypt filter other than /Identity is refused by Writer.OpenStream (F64): copying such a stream is an error result, not a copy; such sources (undecodable by go-pdf itself) are not generated",
         "reading the source raises no I/O error (C19); Writer.Put/Reader round trip of the written objects is C02",
         "isomorphism is stated with alias references contracted and /Filter, /DecodeParms inlined, as CopyReference and copyStreamDict define it; a null dictionary entry equals an absent one (the Writer drops it)",
     ],
